@@ -1234,11 +1234,8 @@ class VectorImpl : public VectorDestr<T, Alloc, SizeType, WithInlineElements, Gr
   }
 
   iterator insert(const_iterator position, T &&v) {
-    assert(position >= this->cbegin() && position <= cend());
-    iterator pos = this->adjustCapacity(static_cast<uintmax_t>(this->size()) + 1U, position);
-    insert_n(pos, this->size() - (pos - this->begin()), std::move(v));
-    this->incrSize();
-    return pos;
+    // v may refer to one of our elements: emplace builds the new element before moving anything
+    return this->emplace(position, std::move(v));
   }
 
   iterator insert(const_iterator position, size_type count, const_reference v) {
@@ -1316,9 +1313,8 @@ class VectorImpl : public VectorDestr<T, Alloc, SizeType, WithInlineElements, Gr
   }
 
   void push_back(T &&v) {
-    this->adjustCapacity(static_cast<uintmax_t>(this->size()) + 1U);
-    amc::construct_at(end(), std::move(v));
-    this->incrSize();
+    // v may refer to one of our elements: emplace_back builds the new element before any reallocation
+    this->emplace_back(std::move(v));
   }
 
   void resize(size_type count) {
